@@ -119,6 +119,12 @@ pub fn probe(opts: &Opts) -> i32 {
                 a.wrapping_add(FeoxStore::verif_record_overhead()).wrapping_add(r.key.len()).wrapping_add(r.value_len as usize)
             });
             let got_mem = store.memory_usage();
+            // C05 after recovery: the usage counter (what the next flush persists as total_size) = the
+            // blocks of the live records' extents
+            let fmt = feoxdb::storage::format::get_format(store.verif_format_version());
+            let expect_disk = snap.iter().filter(|r| r.sector != 0).fold(0u64, |a, r| a + (fmt.total_size(r.key.len(), r.value_len as usize).div_ceil(4096) as u64) * 4096);
+            let got_disk = store.verif_disk_usage();
+            let line = if expect_disk != got_disk { format!("{line} ACCT-BROKEN-DISK usage-counter={got_disk} live-extents={expect_disk}") } else { line };
             let line = if expect_mem != got_mem || store.len() != snap.len() {
                 format!("{line} ACCT-BROKEN expect_mem={expect_mem} got_mem={got_mem} len={} records={}", store.len(), snap.len())
             } else {
@@ -529,6 +535,8 @@ pub fn open_verdict(line: &str) -> String {
         "FAIL open-or-read-panicked".into()
     } else if line.contains("OPENED-WITHOUT-SIGNATURE") {
         "FAIL non-empty-file-without-a-valid-signature-was-opened-as-a-store".into()
+    } else if line.contains("ACCT-BROKEN-DISK") {
+        "FAIL disk-usage-counter-after-recovery-differs-from-the-live-records-extents".into()
     } else if line.contains("ACCT-BROKEN") {
         "FAIL memory-usage-or-len-after-recovery-differs-from-the-live-records".into()
     } else if line.contains("TIMEOUT") {
